@@ -18,6 +18,11 @@ Proof.
   replace (0 <? rel') with true by (symmetry; apply Z.ltb_lt; lia). reflexivity.
 Qed.
 
+(* ------------------------------------------------------------------------------------------------ stateless objects *)
+Theorem stateless_resumable {C I Ou : Type} (f : C -> Z -> I -> Ou) :
+  resumable (stateless_machine f) (fun _ => True) (fun _ _ => True) (fun _ _ _ => True) eq eq eq.
+Proof. constructor; cbn [m_init m_step m_save m_after_save m_load stateless_machine fst snd]; auto. Qed.
+
 (* ------------------------------------------------------------------------------------------------ histogram *)
 Section Histogram.
   Context {T : Type} (O : NumOps T).
